@@ -11,9 +11,9 @@ use crate::with_curve;
 use serde_json::json;
 
 /// where an op list lives: top level (None) or the body of the closure at ops[i]
-type ListRef = Option<usize>;
+pub type ListRef = Option<usize>;
 
-fn list_mut(prog: &mut Program, l: ListRef) -> &mut Vec<Op> {
+pub fn list_mut(prog: &mut Program, l: ListRef) -> &mut Vec<Op> {
     match l {
         None => &mut prog.ops,
         Some(i) => match &mut prog.ops[i] {
@@ -23,7 +23,7 @@ fn list_mut(prog: &mut Program, l: ListRef) -> &mut Vec<Op> {
     }
 }
 
-fn lists(prog: &Program) -> Vec<ListRef> {
+pub fn lists(prog: &Program) -> Vec<ListRef> {
     let mut v = vec![None];
     for (i, op) in prog.ops.iter().enumerate() {
         if matches!(op, Op::Closure(_)) {
@@ -33,7 +33,7 @@ fn lists(prog: &Program) -> Vec<ListRef> {
     v
 }
 
-fn constrain_sites(prog: &Program) -> Vec<(ListRef, usize)> {
+pub fn constrain_sites(prog: &Program) -> Vec<(ListRef, usize)> {
     let mut v = vec![];
     for l in lists(prog) {
         let ops: &Vec<Op> = match l {
